@@ -33,6 +33,11 @@ class EncodeError(Exception):
     pass
 
 
+class _NeedBitSplit(Exception):
+    def __init__(self, sig):
+        self.sig = sig
+
+
 # --------------------------------------------------------------------------------------------------
 # Exact-width values
 # --------------------------------------------------------------------------------------------------
@@ -270,6 +275,9 @@ class Design:
         self._tvars = {}      # Signal -> template z3 var (regs, inputs, consts)
         self._comb_val = {}   # Signal -> Val (template term)
         self._in_progress = set()
+        self._bitsplit = set()
+        self._bit_cache = {}
+        self._bitctx = None
         self._next = {}
         self._pruned = {}
         for s in self.regs + self.inputs + self.consts:
@@ -305,13 +313,45 @@ class Design:
         if s in self.comb_targets:
             v = self._comb_val.get(s)
             if v is None:
-                v = self._compute_comb(s)
+                if s in self._bitsplit:
+                    bits = [self._bit_val(s, b) for b in range(len(s))]
+                    t = z3.Concat(*reversed(bits)) if len(bits) > 1 else bits[0]
+                    v = Val(z3.simplify(t), s.signed)
+                    self._comb_val[s] = v
+                else:
+                    v = self._compute_comb(s)
             return v
         # undriven: holds its reset value, as in migen.sim
         return _trunc(_const(s.reset.value), len(s), s.signed)
 
+    def _bit_val(self, s, b):
+        """bit b of a comb signal whose bits depend on each other (bit-level acyclic): 1-bit z3 term"""
+        key = (s, b)
+        v = self._bit_cache.get(key)
+        if v is not None:
+            return v
+        if key in self._in_progress:
+            raise EncodeError("combinational loop through bit %d of %s" % (b, self.sig_name(s)))
+        self._in_progress.add(key)
+        saved = self._bitctx
+        try:
+            self._bitctx = key
+            gt, gs = self._comb_group_of[s]
+            stmts = _prune(gs, s, None)
+            rv = (s.reset.value >> b) & 1
+            env = {s: Val(z3.BitVecVal(rv, 1), False)}
+            self._exec(stmts, env, s, z3.BoolVal(True))
+            v = z3.simplify(env[s].t)
+            self._bit_cache[key] = v
+            return v
+        finally:
+            self._bitctx = saved
+            self._in_progress.discard(key)
+
     def _compute_comb(self, s):
         if s in self._in_progress:
+            if len(s) > 1 and s not in self._bitsplit:
+                raise _NeedBitSplit(s)
             raise EncodeError("combinational loop through %s" % self.sig_name(s))
         self._in_progress.add(s)
         try:
@@ -319,7 +359,19 @@ class Design:
             key = (id(gs), s)
             stmts = _prune(gs, s, None)
             env = {s: _trunc(_const(s.reset.value), len(s), s.signed)}
-            self._exec(stmts, env, s, z3.BoolVal(True))
+            saved = self._bitctx
+            self._bitctx = None
+            try:
+                self._exec(stmts, env, s, z3.BoolVal(True))
+            except _NeedBitSplit as e:
+                if e.sig is not s:
+                    raise
+                # bits of s depend on other bits of s: evaluate it bit by bit
+                self._bitsplit.add(s)
+                self._in_progress.discard(s)
+                return self.sig_val(s)
+            finally:
+                self._bitctx = saved
             v = env[s]
             v = Val(z3.simplify(v.t), v.s)
             self._comb_val[s] = v
@@ -390,9 +442,13 @@ class Design:
         if isinstance(node, _Operator):
             return self._eval_op(node, env, postcommit)
         if isinstance(node, _Slice):
-            v = self.eval(node.value, env, postcommit)
             if node.stop <= node.start:
                 return Val(z3.BitVecVal(0, 1), False)
+            if (isinstance(node.value, Signal) and node.value in self._bitsplit and not
+                    (postcommit and env is not None and node.value in env)):
+                bits = [self._bit_val(node.value, b) for b in range(node.start, node.stop)]
+                return Val(z3.Concat(*reversed(bits)) if len(bits) > 1 else bits[0], False)
+            v = self.eval(node.value, env, postcommit)
             if v.w < node.stop:
                 v = Val(_ext(v, node.stop), v.s)
             return Val(z3.Extract(node.stop - 1, node.start, v.t), False)
@@ -530,6 +586,25 @@ class Design:
     # ---- statement execution -------------------------------------------------------------------
     def _assign(self, node, value, env, target, cond):
         """env[target] <- ite(cond, assigned, old) restricted to `target`"""
+        if self._bitctx is not None and self._bitctx[0] is target:
+            b = self._bitctx[1]
+            if isinstance(node, Signal):
+                if node is not target:
+                    return
+                tv = _trunc(value, len(node), node.signed)
+                new = z3.Extract(b, b, tv.t)
+            elif isinstance(node, _Slice) and node.value is target:
+                if not (node.start <= b < node.stop):
+                    return
+                tv = _as_unsigned_bits(value, node.stop - node.start)
+                new = z3.Extract(b - node.start, b - node.start, tv.t)
+            elif target not in _lv_signals(node):
+                return
+            else:
+                raise EncodeError("unsupported l-value form for bit-level evaluation of %s" % self.sig_name(target))
+            old = env[target]
+            env[target] = Val(new if z3.is_true(cond) else z3.If(cond, new, old.t), False)
+            return
         if isinstance(node, Signal):
             if node is not target:
                 return
@@ -607,6 +682,9 @@ class Design:
     def _exec(self, stmts, env, target, cond):
         for s in stmts:
             if isinstance(s, _Assign):
+                if (self._bitctx is not None and self._bitctx[0] is target and isinstance(s.l, _Slice)
+                        and s.l.value is target and not (s.l.start <= self._bitctx[1] < s.l.stop)):
+                    continue
                 self._assign(s.l, self.eval(s.r, env, False), env, target, cond)
             elif isinstance(s, tuple) and s[0] == "if":
                 _, c, t, f = s
